@@ -48,7 +48,6 @@ Definition dump_vuser (v : vuser) : str :=
 
 Definition dump_vchan (v : vchan) : str :=
   hex (vc_name v) ++ colon ++ hex (vc_topic v) ++ colon ++ hexlist (vc_users v) ++ colon ++
-  hex (modes_string (cm_set_modes (vc_cfg v) (vc_modes v))) ++ colon ++
   join comma (List.map (fun m => hex [m_name m] ++ eqs ++ hex (m_args m)) (vc_modes v)).
 
 (* identities of the tracked state: struct cells, list windows (cap > 0), permission maps *)
